@@ -224,7 +224,17 @@ def run(tier):
     build = C.lean_build(PROP)
     audit = open(os.path.join(C.LEAN, 'Lessm', 'Audit', 'C12.lean')).read()
     theorems = ['Lessm.Lex.' + t for t in re.findall(r'#print axioms (\S+)', audit)]
-    missing = chk.set_proof(build, theorems, 'cd lean && lake build Lessm.Props.C12 Lessm.Audit.C12 && lake env lean Lessm/Audit/C12.lean')
+    # second proof module: the character-level front end (regex matcher, ply loop, filter) on the regenerated lexer rules
+    b2 = C.lean_build('C12Lex', theorems_module='Lessm.Props.C12Lex', extract=False)
+    build.ok = build.ok and b2.ok
+    build.log += '\n' + b2.log
+    build.axioms.update(b2.axioms)
+    build.failed_modules += b2.failed_modules
+    build.audit_problems += b2.audit_problems
+    audit2 = open(os.path.join(C.LEAN, 'Lessm', 'Audit', 'C12Lex.lean')).read()
+    theorems += re.findall(r'#print axioms (\S+)', audit2)
+    missing = chk.set_proof(build, theorems, 'cd lean && lake build Lessm.Props.C12 Lessm.Audit.C12 Lessm.Props.C12Lex Lessm.Audit.C12Lex && '
+                            'lake env lean Lessm/Audit/C12.lean && lake env lean Lessm/Audit/C12Lex.lean')
     chk.cov['trusted_base'] = C.TRUSTED_BASE
     chk.cov['rule'] = ('sources: programs of the generators of C02 C03 C05 C07 C19 + string-heavy samples + the files of test/less that '
                        'compile; each re-rendered under k layouts (k = 4 quick / 10 thorough): every whitespace run replaced by a run from '
